@@ -133,12 +133,37 @@ def m_codec(t):
     return t
 
 
+def m_seal(t):
+    c = t["o"]["clear"]
+    k = "sid" if c["sid"] else "key"
+    if not t["o"]["opened"] or not c[k]:
+        return None
+    c[k][0] = (c[k][0] + 1) % 256            # the opened message differs from the one that was sealed (K4)
+    return t
+
+
+def m_tee(t):
+    if not t["obs"]["mret"]:
+        return None
+    t["obs"]["mgot"] = t["obs"]["mgot"] + 1  # the main chain read a chunk the branch side never took (E0 / E1)
+    return t
+
+
+def m_dyn(t):
+    i = first(lambda e: e["op"] == "conn" and e["out"] == "served", t["hist"])
+    if i is None:
+        return None
+    t["hist"][i]["out"] = "unavailable"      # a connection refused although the model of the code serves it (D0 / D1)
+    return t
+
+
 SPECS = [
     ("L4RouterTrace", "router_traces.ndjson", m_router), ("L4TimedTrace", "timed_traces.ndjson", m_timed), ("L4UdpTrace", "udp_traces.ndjson", m_udp),
     ("L4ListenerTrace", "listener_traces.ndjson", m_listener), ("L4LBTrace", "lb_traces.ndjson", m_lb), ("L4ProxyTrace", "proxy_traces.ndjson", m_proxy),
     ("L4HealthTrace", "health_traces.ndjson", m_health), ("L4Socks5Trace", "socks_traces.ndjson", m_socks), ("L4ThrottleTrace", "throttle_traces.ndjson", m_throttle),
     ("L4ProxyProtoTrace", "pp_traces.ndjson", m_pp), ("L4ConcTrace", "conc_traces.ndjson", m_conc), ("L4WireTrace", "wire_traces.ndjson", m_wire),
     ("L4TLSTrace", "tls_traces.ndjson", m_tls), ("L4ConfigTrace", "cfg_traces.ndjson", m_cfg), ("L4CodecTrace", "codec_traces.ndjson", m_codec),
+    ("L4CodecSealTrace", "seal_traces.ndjson", m_seal), ("L4TeeTrace", "tee_traces.ndjson", m_tee, ("E0", "E1")), ("L4DynTrace", "dyn_traces.ndjson", m_dyn, ("D0",)),
 ]
 
 
@@ -155,7 +180,14 @@ def validate(lines, module, name):
 def main():
     ok = True
     report = []
-    for module, name, mut in SPECS:
+    for spec in SPECS:
+        module, name, mut = spec[:3]
+        # (the models beyond the listed properties report OBSERVATIONS on unchanged code - clauses E2, E3, D1; what binds
+        # them to the code are the conformance clauses named here)
+        bind = spec[3] if len(spec) > 3 else None
+
+        def binding(vbad):
+            return [b for b in vbad if bind is None or any(c.split()[0] in bind for c in b["clauses"])]
         p = os.path.join(GOLD, module + "." + name)
         if not os.path.exists(p):
             log(f"{module}: no golden traces ({p}); harvest them with VERIF_KEEP_TRACES={GOLD} bin/check ...")
@@ -163,14 +195,14 @@ def main():
             continue
         gold = [json.loads(l) for l in open(p)]
         r = validate(gold, module, name)
-        good = r["vdone"] == len(gold) and not r["vbad"] and not r["errors"]
+        good = r["vdone"] == len(gold) and not binding(r["vbad"]) and not r["errors"]
         muts = []
         for t in gold:
             m = mut(copy.deepcopy(t))
             if m is not None and m != t:
                 muts.append(m)
         r2 = validate(muts, module, name) if muts else dict(vbad=[], vdone=0, errors=["no golden trace offers a handle for the corruption"])
-        rejected = {b["id"] for b in r2["vbad"]}
+        rejected = {b["id"] for b in binding(r2["vbad"])}
         all_rejected = bool(muts) and r2["vdone"] == len(muts) and not r2["errors"] and all(m["id"] in rejected for m in muts)
         report.append(dict(spec=module, golden=len(gold), golden_accepted=good, corrupted=len(muts), corrupted_rejected=len([m for m in muts if m["id"] in rejected]),
                            clauses=sorted({c.split()[0] for b in r2["vbad"] for c in b["clauses"]})))
